@@ -95,6 +95,29 @@ RuneUnlock(r) ==
   ELSE /\ Chk("C33.unlock", r.unlock >= 0 /\ Le(r.minAt, r.n), r)
        /\ (r.unlock > 0 => Chk("C33.first", Lt(r.n, r.minBefore), r))
 
+\* ---------------------------------------------------------------- C34: any decimal string
+\* int.frac denotes V / 10^L with sig = frac without trailing zeros, L = Len(sig), V = digits(int sig); converting to
+\* divisibility d yields V * 10^(d - L) base units, or excess precision (L > d), or overflow (>= 2^128)
+DecStr(r) ==
+  LET sig == StripTrailingZeros(r.frac)
+      L == Len(sig)
+      V == FromDigits(r.int \o sig)
+      fits == Lt(V, TwoPow128)
+      res == r.res
+      units == Mul(V, PowS(10, r.div - L))
+      \* the outcome of parsing and converting together (a string that cannot be converted to any divisibility may
+      \* already be refused by the parser)
+      final == IF res.st = "ok" THEN res.toint ELSE [st |-> "err", n |-> <<>>]
+  IN /\ Chk("C34.total", res.st # "panic" /\ res.toint.st # "panic", r)
+     /\ Chk("C34.parseStr", res.st = "ok" => fits /\ res.value = V /\ res.scale = L, <<r, V>>)
+     \* sound: a result is the exact number of base units; refusing is always allowed by the property (ord refuses
+     \* some representable strings, e.g. a fraction whose digits with their trailing zeros exceed u128)
+     /\ Chk("C34.convertStr", final.st = "ok" => (L <= r.div /\ Lt(units, TwoPow128) /\ final.n = units), <<r, units>>)
+     \* complete where the property's round trip needs it: at most 38 fractional digits and a representable result
+     /\ Chk("C34.convertStrComplete",
+            (Len(r.frac) <= 38 /\ Len(r.int) <= 39 /\ Lt(FromDigits(r.int), TwoPow128) /\ L <= r.div /\ Lt(units, TwoPow128)) => final.st = "ok",
+            <<r, units>>)
+
 \* ---------------------------------------------------------------- C34
 PileRec(r) ==
   LET p == PrintedAmount(r.amount, r.div)
@@ -163,6 +186,8 @@ ParseRec(r) ==
                  LET L == Len(r.frac) IN
                  Chk("C31.decimal",
                      /\ (r.int # <<>> \/ r.frac # <<>>)
+                     \* a sign between the point and the fraction digits denotes nothing
+                     /\ ~r.plusFrac
                      /\ Lt(res.value, TwoPow128)
                      \* value / 10^scale = int + frac / 10^L
                      /\ Mul(res.value, PowS(10, L)) = Mul(FromDigits(r.int \o r.frac), PowS(10, res.scale)),
@@ -189,6 +214,7 @@ Next ==
           [] r.f = "runemin" -> (PROP = "C33" => RuneMin(r))
           [] r.f = "rununlock" -> (PROP = "C33" => RuneUnlock(r))
           [] r.f = "pile" -> (PROP = "C34" => PileRec(r))
+          [] r.f = "decstr" -> (PROP = "C34" => DecStr(r))
           [] r.f = "parse" -> (PROP = "C31" => ParseRec(r))
           [] OTHER -> TRUE
      /\ prev' = IF r.f = "runemin" THEN [net |-> r.net, min |-> r.min] ELSE prev
